@@ -556,6 +556,10 @@ class Evaluator:
                       "enumerate", "zip", "hex", "ord", "chr", "divmod", "set", "bytearray", "dict", "pow", "bin", "oct", "round", "repr"):
                 args = [self._expr(a, env, mod, cls) for a in e.args]
                 kw = {k.arg: self._expr(k.value, env, mod, cls) for k in e.keywords}
+                if nm in ("len", "bool") and len(args) == 1 and isinstance(args[0], Obj) and args[0].mod != "builtins":
+                    ok, r = self._obj_method(args[0], "__len__" if nm == "len" else "__bool__", [])
+                    if ok:
+                        return r
                 if any(isinstance(a, (Obj, ClassRef)) for a in args):
                     raise Undecided("%s() of an object" % nm)
                 try:
